@@ -100,6 +100,40 @@ def _value_checks(sv, bs4, obj, soup, errs, tag):
             errs.append((tag, '%s gives an object selecting different elements' % name))
 
 
+RICH = [
+    'p:first-child', 'p:last-child', 'p:only-child', 'p:first-of-type', 'p:last-of-type', 'p:only-of-type',
+    ':nth-child(2n+1)', ':nth-last-child(-n+3)', ':nth-of-type(2)', ':nth-last-of-type(odd)', ':nth-child(2 of p.q, b)', ':nth-last-child(n+1 of :not(b))',
+    'a|p[a|t~="x" i]', '*|*', '|b', '[t="x" s]', '[type="X"]', '[t!="y"]', '#i.q[lang|=en]', 'div > p + b ~ i span',
+    ':not(p, :is(b > i)):has(> p, + b):where(div)', ':lang(en, "de-*")', ':-soup-contains("x", y)', ':-soup-contains-own(z)', ':dir(rtl)',
+    ':root:empty:scope', ':checked, :default, :indeterminate, :disabled, :enabled', ':in-range:out-of-range', ':placeholder-shown:read-only:read-write',
+    ':required:optional:link:any-link:defined', ':hover, :focus-within', ':current(p)', ':host(p)', ':--x > :--y', '& > p', 'p:is()',
+]
+
+
+def _rich_part(chk):
+    """the value half of the property on selectors that exercise every IR node type and every slot"""
+    sv, bs4 = common.import_repo()
+    soup = bs4.BeautifulSoup('<div class="c0 q" lang="en"><p class="q" t="x">x</p><p>y<b>z</b></p><b>y</b><i><span>s</span></i>'
+                             '<input type="checkbox" checked></div><p></p>', 'html.parser')
+    ns = {'a': 'urn:1'}
+    cu = {':--x': 'p.q', ':--y': 'b, i'}
+    for css in RICH:
+        errs = []
+        try:
+            obj = sv.compile(css, ns, custom=cu)
+        except Exception as e:
+            chk.machinery('rich pattern %r does not compile: %s' % (css, e))
+            continue
+        _value_checks(sv, bs4, obj, soup, errs, 'rich pattern %r' % css)
+        again = sv.compile(css, dict(reversed(list(ns.items()))), custom=dict(reversed(list(cu.items()))))
+        if again is not obj:
+            errs.append(('rich', 'compile with maps in another insertion order is not a cache hit for %r' % css))
+        chk.count(1)
+        chk.nontrivial('rich:' + css)
+        for tag, what in errs:
+            chk.violation('rich|%s|%s' % (css, what), '%s at %s' % (what, tag), {'cfg': 'rich-values', 'group': what[:60], 'selector': css})
+
+
 def _work(H, chunk):
     sv = H['sv']
     bs4 = H['bs4']
@@ -206,4 +240,5 @@ def main(tier):
         for key, what, case in viols:
             case.setdefault('cfg', 'lru-sim')
             chk.violation('lru-sim|' + key, what, case)
+    _rich_part(chk)
     return chk.finish()
